@@ -214,11 +214,12 @@ func multiKey(c scen.Case) bool {
 func classify(c scen.Case, f *harn.Failure) string { return "" }
 
 var prop = harn.Register(&harn.Prop[scen.Case]{Name: "TestDeterminism", Run: run, Classify: classify})
+var propDeep = harn.Register(&harn.Prop[scen.Case]{Name: "TestDeterminismDeep", Run: run, Classify: classify})
 var propDigest = harn.Register(&harn.Prop[scen.Case]{Name: "TestDigests", Run: run, Classify: classify})
 
 var opts = scen.GenOpts{
 	World: world.Opts{MaxFlows: 3, MaxNodes: 5, Languages: []string{"fra", "spa", "kin"}, QueryGroups: true, Voice: true, Background: true, WebhookRefs: true,
-		WebhookCmds: []string{"casevariant", "casevariant", "json"}, Templates: []string{"@legacy_extra.code", "@legacy_extra.name", "@(json(legacy_extra))", "@webhook.json.a", "@webhook.json.name", "@(webhook.json.A)", "@(json(webhook.json))", "@webhook.headers", "@(json(results))", "@(json(contact.fields))", "@contact.groups", "@(foo",
+		WebhookCmds: []string{"casevariant", "casevariant", "json", "true", "false", "true", "null"}, Templates: []string{"@webhook", "@webhook.json.ok", "@(if(webhook.json.ok, 1, 2))", "@trigger.params.flag", "@legacy_extra.code", "@legacy_extra.name", "@(json(legacy_extra))", "@webhook.json.a", "@webhook.json.name", "@(webhook.json.A)", "@(json(webhook.json))", "@webhook.headers", "@(json(results))", "@(json(contact.fields))", "@contact.groups", "@(foo",
 			// several different deprecated context values in one expression (each logs a warning event)
 			"@(results.color.values & results.color.categories)", "@(results.color.categories_localized & results.color.values & legacy_extra)", "@(legacy_extra.name & child.run.status & results.answer.categories)"}},
 	Batch:         true,
@@ -231,7 +232,9 @@ var opts = scen.GenOpts{
 	MaxSteps:      4,
 }
 
-func drawScenario(rt *rapid.T) *scen.Case {
+func drawScenario(rt *rapid.T) *scen.Case { return drawScenarioWith(rt, opts) }
+
+func drawScenarioWith(rt *rapid.T, opts scen.GenOpts) *scen.Case {
 	cs, w := scen.DrawCase(rt, opts)
 	r, _, err := scen.Start(cs)
 	if err == nil {
@@ -258,6 +261,29 @@ func TestDeterminism(t *testing.T) {
 			stats.SkipSample()
 		}
 		prop.Exec(rt, *cs)
+	})
+}
+
+// deep hierarchies that end badly: sub-flow heavy worlds with small resume limits and a broken sub-flow, so that sessions
+// with three or more nested runs are failed as a whole (every live run is exited in one go)
+var deepOpts = scen.GenOpts{
+	World: world.Opts{MaxFlows: 4, MaxNodes: 3, SubflowHeavy: true, Adversarial: true, BrokenFlow: true,
+		Actions: []string{"enter_flow", "send_msg", "set_run_result", "set_contact_name"}},
+	Restarts:     true,
+	ResumeLimits: true,
+	WrongResumes: true,
+	MaxSteps:     5,
+}
+
+func TestDeterminismDeep(t *testing.T) {
+	rapid.Check(t, func(rt *rapid.T) {
+		cs := drawScenarioWith(rt, deepOpts)
+		if stats.WantSample() {
+			stats.Sample(scen.Describe(cs))
+		} else {
+			stats.SkipSample()
+		}
+		propDeep.Exec(rt, *cs)
 	})
 }
 
